@@ -35,7 +35,11 @@ Inductive act :=
 | XMutOther                      (* mutation that leaves the node set alone (edges) *)
 | XRetCtrM1 (c : cellsel)        (* return counter - 1 *)
 | XRetBase                       (* return base *)
-| XNewLock.                      (* the lock OBJECT is replaced: assignment to self.lock, call of self.__init__ *)
+| XNewLock                       (* the lock OBJECT is replaced: assignment to self.lock, call of self.__init__ *)
+| XBaseLen (c : cellsel)         (* base := number of nodes of graph_id + 1: an id computed from the SIZE of the graph *)
+| XSetCtrBase1 (c : cellsel)     (* counter := base + 1 *)
+| XRemove (c : cellsel)          (* a caller removes node k of graph_id from the stored graph (delete_node) *)
+| XAcqFail.                      (* lock.acquire(timeout=..) returned False: the lock was NOT acquired *)
 
 Inductive cond := CFree | CFound | CNotFound.
 Inductive fclass := FNever | FWeak | FDecl.
@@ -60,7 +64,10 @@ Inductive stmt :=
 | STry (ln : N) (body : stmt) (hl : option N) (hs : stmt) (fin : stmt)   (* hl = line of `except Exception` *)
 | SReturn (ln : N) (a : act) (f : fclass)
 | SRaise (ln : N)
-| SWith (ln : N) (body : stmt).   (* `with self.lock:` = acquire at ln; body; release at ln on every exit *)
+| SWith (ln : N) (body : stmt)    (* `with self.lock:` = acquire at ln; body; release at ln on every exit *)
+| SAcqT (ln : N) (onfail : stmt). (* lock.acquire(timeout=..): either acquires, or times out and runs onfail
+                                     (`if not self.lock.acquire(..): onfail`; a call whose result is ignored has
+                                     onfail = SSkip and simply goes on WITHOUT the lock) *)
 
 Inductive outcome := ONormal | OReturn | ORaise | OFuel.
 
@@ -143,6 +150,9 @@ Fixpoint exec (fm : fmode) (fuel : nat) (s : stmt) (p : path) {struct s} : xres 
   | SReturn ln a f => guard_fault fm f ln p (fun p' => (OReturn, [(ln, KAct a)], p'))
   | SRaise ln => (ORaise, [(ln, KAct XLocal)], p)
   | SWith ln body => pre (ln, KAcq) (fstage (exec fm fuel body p) (fun q => (ONormal, [(ln, KRel)], q)))
+  | SAcqT ln onfail =>
+      let (b, p') := pop p in
+      if b then pre (ln, KAct XAcqFail) (exec fm fuel onfail p') else (ONormal, [(ln, KAcq)], p')
   end.
 
 (* enough fuel for any loop: every further iteration consumes one `true` of the path *)
@@ -267,6 +277,9 @@ Fixpoint ab (tf : auto) (fm : fmode) (s : stmt) (a : N) {struct s} : res :=
       | None => rbad
       | Some a0 => fres (ab tf fm body a0) (fun a' => st_n (tf a' KRel))
       end
+  | SAcqT _ onfail =>
+      runion (st_n (tf a KAcq))
+             (match tf a (KAct XAcqFail) with Some a' => ab tf fm onfail a' | None => rbad end)
   end.
 
 Definition sel (o : outcome) (r : res) : list N :=
@@ -310,6 +323,7 @@ Fixpoint fnever_lines (s : stmt) : list N :=
   | SLoop ln f b => (match f with FNever => [ln] | _ => [] end) ++ fnever_lines b
   | STry _ b _ hs fin => fnever_lines b ++ fnever_lines hs ++ fnever_lines fin
   | SWith _ b => fnever_lines b
+  | SAcqT _ b => fnever_lines b
   | _ => []
   end.
 
